@@ -3,7 +3,8 @@
 // The real receive loops (server: tcpHandler.recv, client: connection.recv, reached through
 // overlay accessors) are driven with a fake net.Conn that returns exactly the scripted
 // chunks (optionally interleaved with read-timeout errors) and then EOF. Recording
-// protocol objects delegate ParsePackage to the real protocol.TarsRequest and record every
+// protocol objects delegate ParsePackage to the framing hooks of the real endpoints
+// (tars.Protocol on the server side, protocol.TarsProtocol on the client side) and record every
 // packet handed to Invoke / Recv. Reference model: split the stream by its length prefixes
 // up to the first illegal header.
 package c07
@@ -19,6 +20,7 @@ import (
 	"testing"
 	"time"
 
+	"github.com/TarsCloud/TarsGo/tars"
 	"github.com/TarsCloud/TarsGo/tars/protocol"
 	"github.com/TarsCloud/TarsGo/tars/transport"
 	"github.com/TarsCloud/TarsGo/tars/util/rogger"
@@ -56,7 +58,9 @@ type fakeConn struct {
 	closeCh chan struct{}
 }
 
-func newFakeConn(chunks [][]byte) *fakeConn { return &fakeConn{chunks: chunks, closeCh: make(chan struct{})} }
+func newFakeConn(chunks [][]byte) *fakeConn {
+	return &fakeConn{chunks: chunks, closeCh: make(chan struct{})}
+}
 
 func (f *fakeConn) Read(p []byte) (int, error) {
 	f.mu.Lock()
@@ -104,15 +108,25 @@ func (f *fakeConn) SetWriteDeadline(t time.Time) error { return nil }
 
 // ------------------------------------------------------------------ recording protocols
 
+// framing goes through the hooks the framework's own endpoints use: tars.Protocol (servant
+// adapters, server side) and protocol.TarsProtocol (servant proxies, client side)
+var (
+	serverHook = tars.NewTarsProtocol(nil, nil, false)
+	clientHook = &protocol.TarsProtocol{}
+)
+
 type recorder struct {
+	client     bool
 	mu         sync.Mutex
 	recognised [][]byte // in recognition order (ParsePackage returning a full packet)
 	delivered  [][]byte // handed to Invoke / Recv
 }
 
 func (r *recorder) ParsePackage(buff []byte) (int, int) {
-	n, status := protocol.TarsRequest(buff)
-	return n, status
+	if r.client {
+		return clientHook.ParsePackage(buff)
+	}
+	return serverHook.ParsePackage(buff)
 }
 func (r *recorder) Invoke(ctx context.Context, pkg []byte) []byte {
 	r.mu.Lock()
@@ -139,13 +153,13 @@ type built struct {
 }
 
 type Stream struct {
-	cache *built
-	BodyLens []int    `json:"body_lens"` // body = deterministic bytes from (index, len)
-	Illegal  int      `json:"illegal_at"` // index before which an illegal header is inserted (-1: none)
-	IllLen   uint32   `json:"illegal_len"`
-	TruncLast int     `json:"trunc_last"` // bytes cut off the end of the stream (0: complete)
-	Cuts     []int    `json:"cuts"`      // chunk sizes; remainder in one chunk
-	Timeouts []int    `json:"timeouts"`  // chunk indices before which a read timeout is reported
+	cache     *built
+	BodyLens  []int  `json:"body_lens"`  // body = deterministic bytes from (index, len)
+	Illegal   int    `json:"illegal_at"` // index before which an illegal header is inserted (-1: none)
+	IllLen    uint32 `json:"illegal_len"`
+	TruncLast int    `json:"trunc_last"` // bytes cut off the end of the stream (0: complete)
+	Cuts      []int  `json:"cuts"`       // chunk sizes; remainder in one chunk
+	Timeouts  []int  `json:"timeouts"`   // chunk indices before which a read timeout is reported
 }
 
 type Case struct {
@@ -430,7 +444,7 @@ func runCase(c Case) *stat.Failure {
 		for i := range c.Streams {
 			s := &c.Streams[i]
 			stream, expect, _ := s.build(c.M)
-			rec := &recorder{}
+			rec := &recorder{client: true}
 			fc := newFakeConn(s.chunks(stream))
 			done := make(chan struct{})
 			go func() {
